@@ -25,13 +25,19 @@
  * sockets:
  *   srv <confhex> <model tokens>... / <req> <req> ...
  *     <confhex>: lighttpd.conf text; @DOCROOT@ and @USERFILE@ are substituted
+ *     <model tokens>: docroot, parseopts, lc, tree and blocks as the generator intended them
+ *                     (read by the Lean model only; this harness prints what the parser built)
  *     <req> = 1,<peer>,<h1 head block>         HTTP/1.x: http_request_headers_process()
  *           | 2,<peer>,<method>,<path>,<authority>,<name>:<val>;...   HTTP/2 pseudo-headers +
  *                fields through http_request_parse_header() / http_request_headers_process_h2()
+ *     (a request from another peer address than the previous one is a new connection)
  *   -> "<parseopts> <lc>" then per request
- *      "<status>,<uri.path>,<physical path below docroot | ->,<pathinfo>,<remote addr>,<file sent | ->"
- * The directory tree is given in the environment: LTV_C03_TREE = "d:<hexpath>,f:<hexpath>,..."
- * (created under $LTV_C03_TMP or $TMPDIR; every regular file holds its own path).
+ *      "<status>,<uri.path>,<pathinfo>,<remote addr>,<file sent below docroot | ->"
+ *      (uri.path and pathinfo are "-" when the request head was rejected by the parser)
+ * The document root ($LTV_C03_ROOT/docroot) and the user file ($LTV_C03_ROOT/users.txt) are
+ * prepared by the check module; this harness only writes its configuration file there.
+ *   pton <hex>   sock_addr_inet_pton(AF_INET, then AF_INET6)  -> "4 <addr>" | "6 <addr>" | none
+ *   gai  <hex>   sock_addr_from_str_numeric()                 -> same
  */
 #include "first.h"
 #include "configfile-glue.c"   /* (static config_reference is reset between configurations) */
@@ -74,7 +80,6 @@
 #include "chunk.h"
 #include <unistd.h>
 #include <fcntl.h>
-#include <ftw.h>
 #include <sys/stat.h>
 
 static fdlog_st *errh;
@@ -317,55 +322,20 @@ static connection con;
 static server_socket ssock;
 static const buffer default_tag = { "ltv", 4, 0 };
 
-static int rm_cb(const char *p, const struct stat *st, int fl, struct FTW *f) {
-    (void)st; (void)fl; (void)f;
-    return remove(p);
-}
 static void cleanup(void) {
-    if (tmproot[0]) nftw(tmproot, rm_cb, 16, FTW_DEPTH | FTW_PHYS);
-}
-
-static void mkdirs(char *path) {
-    for (char *p = path + 1; *p; ++p)
-        if (*p == '/') { *p = 0; mkdir(path, 0755); *p = '/'; }
+    if (cfgpath[0]) unlink(cfgpath);
 }
 
 static int tree_init(void) {
-    const char *base = getenv("LTV_C03_TMP");
-    if (NULL == base || !*base) base = getenv("TMPDIR");
-    if (NULL == base || !*base) base = "/tmp";
-    snprintf(tmproot, sizeof(tmproot), "%s/ltv-h_access.XXXXXX", base);
-    if (NULL == mkdtemp(tmproot)) { tmproot[0] = 0; return 0; }
-    atexit(cleanup);
+    const char *root = getenv("LTV_C03_ROOT");
+    if (NULL == root || !*root) return 0;
+    snprintf(tmproot, sizeof(tmproot), "%s", root);
     snprintf(docroot, sizeof(docroot), "%s/docroot", tmproot);
     snprintf(userfile, sizeof(userfile), "%s/users.txt", tmproot);
-    snprintf(cfgpath, sizeof(cfgpath), "%s/lighttpd.conf", tmproot);
-    mkdir(docroot, 0755);
-    FILE *f = fopen(userfile, "w");
-    if (!f) return 0;
-    fputs("alice:wonderland\n", f);
-    fclose(f);
-    const char *spec = getenv("LTV_C03_TREE");
-    if (NULL == spec || !*spec) return 1;
-    char *s = strdup(spec);
-    char *ent[1024]; int ne = split(s, ',', ent, 1024);
-    for (int i = 0; i < ne; ++i) {
-        if ((ent[i][0] != 'd' && ent[i][0] != 'f') || ent[i][1] != ':') { free(s); return 0; }
-        size_t n; unsigned char *rel = ltv_unhex(ent[i] + 2, &n);
-        char path[1200];
-        snprintf(path, sizeof(path), "%s%s/", docroot, (char *)rel);
-        mkdirs(path);
-        if (ent[i][0] == 'f') {
-            path[strlen(path) - 1] = 0;
-            rmdir(path);
-            f = fopen(path, "w");
-            if (!f) { free(rel); free(s); return 0; }
-            fwrite(rel, 1, n, f);
-            fclose(f);
-        }
-        free(rel);
-    }
-    free(s);
+    snprintf(cfgpath, sizeof(cfgpath), "%s/lighttpd.%d.conf", tmproot, (int)getpid());
+    struct stat st;
+    if (0 != stat(docroot, &st) || !S_ISDIR(st.st_mode)) return 0;
+    atexit(cleanup);
     return 1;
 }
 
@@ -449,6 +419,7 @@ static int world_init(const unsigned char *cfg, size_t len) {
     const int dbg = (NULL != getenv("LTV_C03_DEBUG"));
   #define FAIL(what) do { if (dbg) fprintf(stderr, "world_init: %s failed\n", what); return 0; } while (0)
     if (0 != config_read(srv, cfgpath)) FAIL("config_read");
+    if (0 != config_set_defaults(srv)) FAIL("config_set_defaults");
     if (!mods_load()) FAIL("mods_load");
     if (HANDLER_GO_ON != plugins_call_init(srv)) FAIL("plugins_call_init");
     if (HANDLER_GO_ON != plugins_call_set_defaults(srv)) FAIL("plugins_call_set_defaults");
@@ -488,7 +459,11 @@ static int run_req(char *req) {
     r->conditional_is_valid = (1 << COMP_SERVER_SOCKET) | (1 << COMP_HTTP_REMOTE_IP);
     config_cond_cache_reset(r);
     size_t pn; unsigned char *peer = ltv_unhex(f[1], &pn);
-    if (!set_peer(&con, peer, pn)) { free(peer); return 0; }
+    if (!buffer_eq_slen(&con.dst_addr_buf, (char *)peer, pn)) {
+        /* another client: connection-level plugin state (mod_extforward trust cache) goes */
+        plugins_call_handle_connection_close(&con);
+        if (!set_peer(&con, peer, pn)) { free(peer); return 0; }
+    }
     free(peer);
     unsigned char *blk = NULL;
     if (f[0][0] == '1' && nf == 3) {
@@ -543,13 +518,12 @@ static int run_req(char *req) {
     }
     else return 0;
 
+    const int parsed = (0 == r->http_status);
     handler_t rc = http_response_handler(r);
     printf(" %d,", (HANDLER_GO_ON == rc || HANDLER_FINISHED == rc) ? r->http_status : -(int)rc);
-    ltv_puthex(r->uri.path.ptr, buffer_clen(&r->uri.path));
+    if (parsed) ltv_puthex(r->uri.path.ptr, buffer_clen(&r->uri.path)); else fputc('-', stdout);
     fputc(',', stdout);
-    put_below_docroot(&r->physical.path);
-    fputc(',', stdout);
-    ltv_puthex(r->pathinfo.ptr, buffer_clen(&r->pathinfo));
+    if (parsed) ltv_puthex(r->pathinfo.ptr, buffer_clen(&r->pathinfo)); else fputc('-', stdout);
     fputc(',', stdout);
     ltv_puthex(r->dst_addr_buf->ptr, buffer_clen(r->dst_addr_buf));
     fputc(',', stdout);
@@ -605,6 +579,24 @@ int main(void) {
             buffer_copy_string_len_lc(b, (char *)v, n);
             ltv_puthex(b->ptr, buffer_clen(b)); fputc('\n', stdout);
             buffer_free(b); free(v);
+        }
+        else if ((0 == strcmp(op, "pton") || 0 == strcmp(op, "gai")) && ltv_ntok == 2) {
+            size_t n; unsigned char *v = ltv_unhex(ltv_tok[1], &n);
+            sock_addr sa; memset(&sa, 0, sizeof(sa));
+            int ok;
+            if (op[0] == 'p')
+                ok = (strlen((char *)v) == n)
+                  && (1 == sock_addr_inet_pton(&sa, (char *)v, AF_INET, 0)
+                      || 1 == sock_addr_inet_pton(&sa, (char *)v, AF_INET6, 0));
+            else {
+                sa.plain.sa_family = AF_UNSPEC;
+                ok = (strlen((char *)v) == n) && 1 == sock_addr_from_str_numeric(&sa, (char *)v, errh)
+                  && sa.plain.sa_family != AF_UNSPEC;
+            }
+            if (ok && sa.plain.sa_family == AF_INET) { fputs("4 ", stdout); ltv_puthex(&sa.ipv4.sin_addr, 4); fputc('\n', stdout); }
+            else if (ok && sa.plain.sa_family == AF_INET6) { fputs("6 ", stdout); ltv_puthex(&sa.ipv6.sin6_addr, 16); fputc('\n', stdout); }
+            else puts("none");
+            free(v);
         }
         else if (0 == strcmp(op, "xfa")) op_xfa();
         else if (0 == strcmp(op, "trust")) op_trust();
